@@ -657,7 +657,15 @@ class Array(metaclass=MetaArray):
                     f"{value} needs {info.size} bytes and does not fit in "
                     f"the {self._get_size()} bytes of {self}"
                 )
-            self.__class__._to_buffer(self._buffer, self._offset, value, info)
+            # (all or nothing, as above)
+            backup = self._buffer.to_bytearray(self._offset, self._get_size())
+            try:
+                self.__class__._to_buffer(
+                    self._buffer, self._offset, value, info
+                )
+            except Exception:
+                self._buffer.update_from_buffer(self._offset, backup)
+                raise
         else:
             if is_integer(value):
                 raise ValueError(f"Cannot specify new length {ll} for {self}")
